@@ -6,9 +6,10 @@ from lib.props import PROPS, HARNESSES, MANIFEST_TEXT, HOOK_COMMITS
 V = os.path.dirname(os.path.dirname(os.path.abspath(__file__)))
 ids = [json.loads(l)["id"] for l in open(os.path.join(V, "properties.jsonl"))]
 checks, na = [], []
+ready = set(open(os.path.join(V, "lib", "ready.txt")).read().split())
 for i in ids:
     t = MANIFEST_TEXT.get(i)
-    if i in PROPS and t and not t.get("not_applicable"):
+    if i in PROPS and i in ready and t and not t.get("not_applicable"):
         checks.append(dict(
             property_id=i,
             quick_cmd="bin/check %s --tier quick" % i,
